@@ -436,3 +436,41 @@ def run(ctx):
 
     with ctx.rule("C07.R8", "T5", "named arguments are passed in their parameters' positions (no two flags or ids change places at a call site)", floor=5) as r:
         named_argument_rule(ctx, r, [("swimos_runtime", "swimos_runtime::downlink"), ("swimos_runtime", "swimos_runtime::backpressure")], allow={})
+
+    with ctx.rule("C07.R11", "T5+T2", "frame interpretations: which downlink kinds have single-frame state, and every interpretation hands on the whole frame", floor=6) as r:
+        consts = {k: v for k, v in rt.consts.items() if k.endswith("DownlinkInterpretation>::SINGLE_FRAME_STATE")}
+        kinds = {}
+        for b in rt.fns(name="interpret_frame_data"):
+            adt = (b.meta.get("self_adt") or b.defpath).split("::")[-1].split("<")[0]
+            kinds[adt] = ctx.saw(b)
+        want = {"MapInterpretation": 0, "NoInterpretation": 0}
+        for adt, v in sorted(want.items()):
+            c = [cv for k, cv in consts.items() if ("::%s as " % adt) in k]
+            r.check(len(c) == 1 and c[0].get("v") == v, "%s/SINGLE_FRAME_STATE=false" % adt, "-", "%s declares that one frame does not determine its state (a late consumer is served the running event stream, never 'the current frame' as its state)" % adt,
+                    "%s has SINGLE_FRAME_STATE %s: a consumer that joins a map downlink late is synced from the last frame alone and holds a one-entry view of the map" % (adt, [cv.get("v") for cv in c] or "defaulted to true"))
+        fm = [cv for k, cv in consts.items() if "FnMutInterpretation" in k]
+        r.check(not fm or fm[0].get("v") == 1, "FnMutInterpretation/SINGLE_FRAME_STATE=true", "-", "value-like interpretations keep the trait default (true): the last frame is the state")
+        if not {"MapInterpretation", "NoInterpretation", "FnMutInterpretation"} <= set(kinds):
+            raise AnchorMissing("DownlinkInterpretation implementations: %s" % sorted(kinds))
+        tr = ctx.saw(rt.fn(suffix="interpretation::trivial_interpretation"))
+        for nm, b, how in (("trivial_interpretation", tr, ("put", "extend", "extend_from_slice", "put_slice")), ("NoInterpretation", kinds["NoInterpretation"], ("put", "extend", "extend_from_slice", "put_slice"))):
+            w = [c for c in b.calls if c.name in how and describe_operand(b, c.args[0]) == "buffer"]
+            r.check(len(w) == 1 and describe_operand(b, w[0].args[1]) in ("frame", "as_ref(frame)") and b.must_pass([0], {w[0].block})[0], "%s/whole-frame-appended" % nm, where(b), "the whole frame is appended to the buffer on every path",
+                    "%s does not hand on the frame as it is (%s)" % (nm, [(c.name, describe_operand(b, c.args[1])[:40]) for c in w]))
+            bad = [c for c in b.calls if c.name in ("clear", "truncate", "advance", "split_to", "split_off") and c.args and describe_operand(b, c.args[0]) in ("buffer", "frame")]
+            r.check(not bad, "%s/nothing-dropped" % nm, where(b), "neither the frame nor the buffer is shortened", "%s shortens %s" % (nm, [(c.name, describe_operand(b, c.args[0])) for c in bad]))
+        mi = kinds["MapInterpretation"]
+        eh = [c for c in mi.calls if c.name == "extract_header"]
+        en = [c for c in mi.calls if c.name == "encode"]
+        ok = len(eh) == 1 and len(en) == 1 and describe_operand(mi, eh[0].args[0]) in ("frame", "&frame") and "extract_header(frame)" in describe_operand(mi, en[0].args[1]) and describe_operand(mi, en[0].args[2]) == "buffer"
+        r.check(ok, "MapInterpretation/header-of-this-frame-encoded", where(mi), "the map message extracted from this frame is what is encoded into the buffer", "MapInterpretation encodes %s" % [describe_operand(mi, c.args[1])[:60] for c in en])
+        te = mi.try_edges(eh[0]) if eh else None
+        r.check(te is not None and en and mi.dominates(te[0], en[0].block), "MapInterpretation/unreadable-frame=>error", where(mi), "a frame whose header cannot be extracted is an error (the read task decides whether to drop or abort), never a partial write")
+        # the read task is generic over the interpretation and the write task over the backpressure strategy: each downlink kind is wired to its own pair
+        dec = {}
+        for b in rt.fns(name="make_decoder"):
+            adt = (b.meta.get("self_adt") or "").split("::")[-1]
+            ret = b.raw.get("ret") or ""
+            dec[adt] = ctx.saw(b)
+        r.check({"ValueBackpressure", "MapBackpressure"} <= set(dec), "DownlinkBackpressure/both-kinds", "-", "value and map backpressure strategies each name their command decoder", "DownlinkBackpressure implemented for %s" % sorted(dec))
+
